@@ -53,6 +53,13 @@ STOP_PREFIXES = (
     CTL + "command::",
 )
 
+# API methods: their own bodies are scanned (argument post-processing happens there) but the
+# analysis does not descend into the wallet logic they call
+SHALLOW_PREFIXES = (
+    API + "owner::Owner::<L, C, K>::",
+    API + "foreign::Foreign::<'a, L, C, K>::",
+)
+
 EFFECTFUL_ENTRY_OK = {
     API + "foreign::Foreign::<'a, L, C, K>::receive_tx",
     CTL + "controller::OwnerAPIHandlerV3::<L, C, K>::call_api::{closure#0}",
@@ -117,6 +124,8 @@ ALLOW = {
     (API + "types::EncryptedBody::from_json", "unwrap ring::aead::UnboundKey"): "AES-256 key is the fixed 32-byte SecretKey",
     (API + "types::EncryptedBody::decrypt", "unwrap ring::aead::UnboundKey"): "AES-256 key is the fixed 32-byte SecretKey",
     (API + "owner::try_slatepack_sync_workflow", "unwrap util::ov3::OnionV3Address"): "TryFrom via the blanket impl over From<&SlatepackAddress>: Infallible",
+    (API + "owner::Owner::<L, C, K>::get_updater_messages", "split_off "): "index = len.saturating_sub(count) <= len",
+    (API + "owner::Owner::<L, C, K>::open_wallet", "unwrap alloc::vec::Vec<u8>"): "from_hex of a constant string (doctest mode only)",
     ("<grin_wallet_libwallet::slatepack::armor::HEADER_REGEX as core::ops::deref::Deref>::deref::__static_ref_initialize", "unwrap *"): _CONSTRE,
     ("<grin_wallet_libwallet::slatepack::armor::FOOTER_REGEX as core::ops::deref::Deref>::deref::__static_ref_initialize", "unwrap *"): _CONSTRE,
     ("<grin_wallet_impls::client_utils::client::RUNTIME as core::ops::deref::Deref>::deref::__static_ref_initialize", "unwrap *"): _CONSTRE,
@@ -127,6 +136,8 @@ ALLOW = {
 
 # number of sites confirmed by reading for each allow-list entry (a further site of the same kind is reported)
 ALLOW_COUNTS = {
+    ('grin_wallet_api::owner::Owner::<L, C, K>::get_updater_messages', 'split_off '): 1,
+    ('grin_wallet_api::owner::Owner::<L, C, K>::open_wallet', 'unwrap alloc::vec::Vec<u8>'): 1,
     ("<(dyn grin_wallet_api::foreign_rpc::ForeignRpc + 'static) as easy_jsonrpc_mw::Handler>::handle", 'expect serde_json::value::Value'): 5,
     ("<(dyn grin_wallet_api::foreign_rpc::ForeignRpc + 'static) as easy_jsonrpc_mw::Handler>::handle", 'panic debug_assert_eq'): 4,
     ("<(dyn grin_wallet_api::owner_rpc::OwnerRpc + 'static) as easy_jsonrpc_mw::Handler>::handle", 'expect serde_json::value::Value'): 97,
